@@ -94,6 +94,7 @@ def run_simulate(model, opts=None, init_state=True, init_log=True, abort_at=None
         max_time=o["maxTime"],
         initialize_state_info=init_state,
         initialize_log_info=init_log,
+        unit_time=o.get("unit", 1),
     )
     ev, ret = call_recorded(model, lambda: model.project.simulate(**kw), abort_at=abort_at)
     o2 = copy.deepcopy(o)
@@ -252,6 +253,8 @@ def run_history(spec):
             kw = dict(task_priority_rule=TRULE[o["rule"]], absence_time_list=list(o["absL"]),
                       perform_auto_task_while_absence_time=o["autoAbs"], max_time=o["maxTime"],
                       initialize_state_info=o["initState"], initialize_log_info=o["initLog"])
+            if op.get("defaultAbs") and not o["absL"]:
+                del kw["absence_time_list"]      # rely on the library's default argument
             ev, ret = call_recorded(m, lambda: m.project.simulate(**kw), light=light)
             rec["ev"], rec["ret"] = ([] if light else annotate(ev)), ret
         elif kind == "backward":
@@ -297,7 +300,20 @@ def run_history(spec):
     if tmp is not None:
         import shutil
         shutil.rmtree(tmp, ignore_errors=True)
+    _reset_default_arguments()
     return {"cfg": cfg, "runs": runs, "spec": spec}
+
+
+def _reset_default_arguments():
+    """Harness hygiene: if a case managed to mutate a mutable default argument of simulate /
+    backward_simulate (a leak that C09 judges inside the case), empty it again so that the leak
+    cannot contaminate the next case run by this worker process."""
+    from pDESy.model.base_project import BaseProject
+
+    for fn in (BaseProject.simulate, BaseProject.backward_simulate):
+        for d in fn.__defaults__ or ():
+            if isinstance(d, list) and d:
+                del d[:]
 
 
 # =========================================================================================
